@@ -245,6 +245,18 @@ def step (co : Nat → Nat) (s : State) (inSize outSize : Nat) (endOp : EndOp) :
   | .cont s1 l => finish s1 l inited                                             -- not a possible outcome of `loop`
   | .fail s1 l => (s1, { consumed := 0, produced := 0, ret := .err, hint := 0, genericRet := 0, inited := inited, events := l.events })
 
+/-- what `ZSTD_endStream` adds, in single-thread mode, to the value of its `ZSTD_compressStream2(e_end)` call: while the frame is not ended the
+last block header (3 bytes) and the checksum (4 bytes when enabled) are still to come -/
+def endStreamRet (s1 : State) (ret : Nat) (cksum : Bool) : Nat :=
+  ret + (if s1.frameEnded then 0 else 3) + (if s1.frameEnded then 0 else if cksum then 4 else 0)
+
+/-- **one call of `ZSTD_endStream`** (legacy end directive, single thread): an `e_end` call that offers no input -/
+def endStream (co : Nat → Nat) (s : State) (outSize : Nat) (cksum : Bool) : State × CallResult × Ret :=
+  let r := step co s 0 outSize .eEnd
+  (r.1, r.2, match r.2.ret with
+             | .val v => .val (endStreamRet r.1 v cksum)
+             | .err => .err)
+
 /-- a fresh context (`ZSTD_createCCtx`) with the requested parameters -/
 def State.start (windowLog maxBlockSize : Nat) (pledged : Option Nat) : State :=
   { windowLog := windowLog, maxBlockSize := maxBlockSize,
